@@ -56,8 +56,10 @@ def encVal (rc : Nat) (v : AVal) : Except Err Bytes :=
     | .f64 _ => .error .unmodelled | _ => .error .value
   | 7 => match v with
     | .f64 b => if b < 2 ^ 64 then .ok (beN 8 b) else .error .unmodelled
-    | .f32 b => match f32ToF64 b with | some d => .ok (beN 8 d) | none => .error .unmodelled
-    | .int i => match intToF64 i with | some d => .ok (beN 8 d) | none => .error .unmodelled
+    | .f32 b => match f32ToF64 b with
+      | some d => if d < 2 ^ 64 then .ok (beN 8 d) else .error .unmodelled | none => .error .unmodelled
+    | .int i => match intToF64 i with
+      | some d => if d < 2 ^ 64 then .ok (beN 8 d) else .error .unmodelled | none => .error .unmodelled
     | .bool b => .ok (beN 8 (if b then 0x3FF0000000000000 else 0))
     | _ => .error .struct
   | 2 => match v with
